@@ -13,10 +13,12 @@ Record cfg := {
   ncons : nat;
   qcap : nat;                       (* maxsize of the main queue; 0 = unbounded *)
   rounds : nat;                     (* number of rounds (renew is called rounds-1 times) *)
-  items : nat -> nat -> list Z      (* items round supplier *)
+  items : nat -> nat -> list Z;     (* items round supplier *)
+  early : nat -> nat -> list Z      (* early round supplier: data of the NEXT round that supplier puts after its put_end of this
+                                       round, before renew() (the put_end docstring allows it); they are not in [items] *)
 }.
 
-Inductive spc := SPut (todo : list Z) | SSpare | SApplied | SEnd | SDone | SFail.
+Inductive spc := SPut (todo : list Z) | SSpare | SApplied | SEnd | SEarly (todo : list Z) | SDone | SFail.
 Inductive cpc := CN1 | CGet | CN3 | CN3put | CN4 | CN5 | CN6 | CN6put | CDone.
 Inductive rpc := RWait | RGet | RUsedGet (k : nat) | RSparePut (k : nat) | RFail | RFinished.
 
@@ -115,7 +117,12 @@ Definition step_s (g : cfg) (st : state) (s : nat) (expire : bool) : option (sta
       else Some (set_sp (set_applied st (S (applied st))) s SEnd, mkEv t OP_APPLIED_PUT 0)
   | Some SEnd, false =>
       if qfull g st then None
-      else Some (set_sp (set_q st (q st ++ [None])) s SDone, mkEv t OP_Q_PUT V_END)
+      else Some (set_sp (set_q st (q st ++ [None])) s
+                        (match early g (round st) s with [] => SDone | l => SEarly l end), mkEv t OP_Q_PUT V_END)
+  | Some (SEarly (x :: r)), false =>
+      if qfull g st then None
+      else Some (set_sp (add_put (set_q st (q st ++ [Some x])) x) s (match r with [] => SDone | _ => SEarly r end),
+                 mkEv t OP_Q_PUT x)
   | _, _ => None
   end.
 
